@@ -4,7 +4,8 @@ Layer W — the long-lived compiler session of watch mode (C14): packages/beff-w
 compiler against `LazyFileManager`, which answers from the cache first and otherwise reads and parses the file,
 caching it when it parses.
 
-The compiler itself is a parameter: `extract view` is its output as a function of what the file manager answers
+The compiler itself is a parameter: `extract σ view` is its output as a function of the settings `σ` of the build (the
+registered custom formats) and of what the file manager answers
 (`view f` = the parsed module of `f`, if any), `touched view` the files it asks for. That `beff_core::extract` is such a
 function (deterministic, files only through the `FileManager`) is C10 plus the trait boundary; `parse` is
 `parse_and_bind` with the host's resolver (the set of files of the project is fixed during a session, so the
@@ -12,32 +13,34 @@ resolver's answers are).
 -/
 namespace BeffVerif.Session
 
-structure World (File Content Mod Out : Type) where
+structure World (File Content Mod Sett Out : Type) where
   parse : File → Content → Option Mod
-  extract : (File → Option Mod) → Out
-  touched : (File → Option Mod) → List File
+  /-- the compiler: a function of the SETTINGS of this build (custom formats) and of what the file manager answers -/
+  extract : Sett → (File → Option Mod) → Out
+  touched : Sett → (File → Option Mod) → List File
 
-variable {File Content Mod Out : Type} [DecidableEq File]
+variable {File Content Mod Sett Out : Type} [DecidableEq File]
 
 structure State (File Content Mod : Type) where
   cache : File → Option Mod
   disk : File → Content
 
-inductive Op (File Content : Type) where
+inductive Op (File Content Sett : Type) where
   | update (f : File) (c : Content)
-  | rebuild
+  /-- `bundle_to_string(entry, settings)`: every rebuild names its settings -/
+  | rebuild (σ : Sett)
 
 def fresh (disk : File → Content) : State File Content Mod := ⟨fun _ => none, disk⟩
 
 /-- `LazyFileManager::get_or_fetch_file`: cache first, else read + parse -/
-def view (w : World File Content Mod Out) (s : State File Content Mod) : File → Option Mod :=
+def view (w : World File Content Mod Sett Out) (s : State File Content Mod) : File → Option Mod :=
   fun f => match s.cache f with
     | some m => some m
     | none => w.parse f (s.disk f)
 
 /-- `update_file_content_inner` (after fix D66): a content that does not parse drops the cached module.
 `keepStale = true` is the behaviour before the fix (the entry is left alone). -/
-def update (w : World File Content Mod Out) (keepStale : Bool) (s : State File Content Mod) (f : File) (c : Content) :
+def update (w : World File Content Mod Sett Out) (keepStale : Bool) (s : State File Content Mod) (f : File) (c : Content) :
     State File Content Mod :=
   { disk := fun g => if g = f then c else s.disk g
     cache := fun g => if g = f then
@@ -47,17 +50,17 @@ def update (w : World File Content Mod Out) (keepStale : Bool) (s : State File C
       else s.cache g }
 
 /-- a rebuild: output, and the files fetched on the way are cached when they parse -/
-def rebuild (w : World File Content Mod Out) (s : State File Content Mod) : State File Content Mod × Out :=
+def rebuild (w : World File Content Mod Sett Out) (s : State File Content Mod) (σ : Sett) : State File Content Mod × Out :=
   let v := view w s
-  ({ s with cache := fun g => if (w.touched v).contains g then v g else s.cache g }, w.extract v)
+  ({ s with cache := fun g => if (w.touched σ v).contains g then v g else s.cache g }, w.extract σ v)
 
-def step (w : World File Content Mod Out) (keepStale : Bool) (s : State File Content Mod) :
-    Op File Content → State File Content Mod × Option Out
+def step (w : World File Content Mod Sett Out) (keepStale : Bool) (s : State File Content Mod) :
+    Op File Content Sett → State File Content Mod × Option Out
   | .update f c => (update w keepStale s f c, none)
-  | .rebuild => let r := rebuild w s; (r.1, some r.2)
+  | .rebuild σ => let r := rebuild w s σ; (r.1, some r.2)
 
 /-- run a history; the outputs of its rebuilds in order -/
-def run (w : World File Content Mod Out) (keepStale : Bool) : State File Content Mod → List (Op File Content) →
+def run (w : World File Content Mod Sett Out) (keepStale : Bool) : State File Content Mod → List (Op File Content Sett) →
     State File Content Mod × List Out
   | s, [] => (s, [])
   | s, op :: rest =>
@@ -66,7 +69,7 @@ def run (w : World File Content Mod Out) (keepStale : Bool) : State File Content
     (s'', match o with | some x => x :: os | none => os)
 
 /-- the cache only holds what parsing the current content gives -/
-def Inv (w : World File Content Mod Out) (s : State File Content Mod) : Prop :=
+def Inv (w : World File Content Mod Sett Out) (s : State File Content Mod) : Prop :=
   ∀ f m, s.cache f = some m → w.parse f (s.disk f) = some m
 
 end BeffVerif.Session
